@@ -475,8 +475,8 @@ MUTANTS = [
          replace="                    if (nOpCount > MAX_OPS_PER_SCRIPT)\n                        return set_error(serror, SCRIPT_ERR_OP_COUNT);\n                    nOpCount += nKeysCount;",
          expect=["R10.3:keycount-added-before-compare"]),
     dict(name="drop-opcount-reset-at-p2sh-switch", file="debugger/interpreter.cpp",
-         find="            env.curr_op_seq++;\n            env.nOpCount = 0; // reset to avoid hitting limit prematurely!\n            env.opcode_pos = 0;\n            return true;",
-         replace="            env.curr_op_seq++;\n            env.opcode_pos = 0;\n            return true;", expect=["R10.6:opcount-reset"]),
+         find="            env.curr_op_seq++;\n            env.nOpCount = 0; // reset to avoid hitting limit prematurely!\n            env.opcode_pos = 0;\n            env.altstack.clear();",
+         replace="            env.curr_op_seq++;\n            env.opcode_pos = 0;\n            env.altstack.clear();", expect=["R10.6:opcount-reset"]),
     dict(name="script-size-for-tapscript-again", file="debugger/interpreter.cpp",
          find="if ((sigversion == SigVersion::BASE || sigversion == SigVersion::WITNESS_V0) && script.size() > MAX_SCRIPT_SIZE) {\n        set_error(serror, SCRIPT_ERR_SCRIPT_SIZE);\n        operational",
          replace="if (script.size() > MAX_SCRIPT_SIZE) {\n        set_error(serror, SCRIPT_ERR_SCRIPT_SIZE);\n        operational", expect=["R10.4:tapscript-exempt:MAX_SCRIPT_SIZE@InterpreterEnv"]),
